@@ -7,7 +7,7 @@ import "strings"
 func registerProps() {
 	propTable["C01"] = PropDef{
 		Title: "Key-value read-after-write: every read returns the last successful write",
-		Rules: []string{"R-TXN", "R-COMMIT", "R-ROWCOMPLETE", "R-READ-NULL", "R-LIVE", "R-COLL", "R-ERRPROP", "R-EVT-ROW"},
+		Rules: []string{"R-TXN", "R-COMMIT", "R-ROWCOMPLETE", "R-READ-NULL", "R-READ-ONCE", "R-LIVE", "R-COLL", "R-ERRPROP", "R-EVT-ROW"},
 		Explanation: "Decides necessary structural clauses, not the behaviour: (a) an operation that fails leaves the document as it was <= every row write runs on the handle of the one transaction (R-TXN) that the runner rolls back on every failing path and whose commit error is reported (R-COMMIT), and no statement error inside a transaction closure is dropped (R-ERRPROP); (b) the last successful write is what is stored <= every body/tombstone/xattr statement assigns the complete row (R-ROWCOMPLETE) and the values bound into it are the operation's own (R-EVT-ROW); (c) missing if deleted <= the read helper maps a NULL body to the missing error (R-READ-NULL), read-side liveness tests use the body column (R-LIVE), reads are scoped to the receiver's collection (R-COLL).",
 		NotDecided:  "equality of returned bytes/CAS/expiry with a model over arbitrary histories; JSON encode/decode; nil bodies passed to Set/Add; purge visibility; value-level control flow inside Update's callback handling.",
 	}
@@ -19,8 +19,8 @@ func registerProps() {
 	}
 	propTable["C03"] = PropDef{
 		Title: "Concurrent operations are linearizable, across goroutines and bucket handles",
-		Rules: []string{"R-TXN", "R-TXN-READS", "R-COMMIT", "R-SHARED-COPY", "R-RMW", "R-GUARDED", "R-ONE-TXN", "R-ROWCOMPLETE", "R-REV"},
-		Explanation: "Necessary atomic-section structure only: read-modify-write entry points read through the transaction handle and write in the same closure (R-TXN, R-TXN-READS, R-REV's same-transaction clause); the runner holds the shared mutex across Begin..Commit (R-COMMIT); all handle copies share that mutex and database (R-SHARED-COPY); optimistic loops carry the CAS they read, into fresh variables, and retry only on mismatch (R-RMW); shared in-memory maps and flags are accessed under their mutex (R-GUARDED); one transaction per operation (R-ONE-TXN); every mutation refreshes the row's CAS so that a stale reader's conditional write fails (R-ROWCOMPLETE).",
+		Rules: []string{"R-TXN", "R-TXN-READS", "R-COMMIT", "R-SHARED-COPY", "R-RMW", "R-GUARDED", "R-ONE-TXN", "R-ROWCOMPLETE", "R-REV", "R-READ-ONCE"},
+		Explanation: "Necessary atomic-section structure only: a read outside a transaction is a single statement (R-READ-ONCE); read-modify-write entry points read through the transaction handle and write in the same closure (R-TXN, R-TXN-READS, R-REV's same-transaction clause); the runner holds the shared mutex across Begin..Commit (R-COMMIT); all handle copies share that mutex and database (R-SHARED-COPY); optimistic loops carry the CAS they read, into fresh variables, and retry only on mismatch (R-RMW); shared in-memory maps and flags are accessed under their mutex (R-GUARDED); one transaction per operation (R-ONE-TXN); every mutation refreshes the row's CAS so that a stale reader's conditional write fails (R-ROWCOMPLETE).",
 		NotDecided:  "linearizability of observed histories, real-time order, SQLite's isolation guarantees.",
 	}
 	propTable["C04"] = PropDef{
@@ -49,8 +49,8 @@ func registerProps() {
 	}
 	propTable["C08"] = PropDef{
 		Title: "Live feed: one faithful event per successful mutation, delivered in CAS order",
-		Rules: []string{"R-EVT-1", "R-EVT-FEEDEVENT", "R-EVT-ROW", "R-EVT-CONV", "R-QUEUE", "R-ATOMIC-ENQ", "R-FEEDMAP", "R-SHARED-COPY", "R-INSERT-GUARD"},
-		Explanation: "The post function is never reachable from inside a transaction and each call of it is guarded by 'transaction error is nil' and 'event is non-nil' (R-EVT-1); mutation/deletion FeedEvents are built only by the one converter, whose fields are computed from exactly the corresponding event fields (R-EVT-FEEDEVENT, R-EVT-CONV); for every write unit each event field is the value bound into (or scanned back from) the row in the same transaction (R-EVT-ROW); queues are FIFO (R-QUEUE); commit and enqueue share a critical section (R-ATOMIC-ENQ); events go to the writer's own collection's feeds, shared by all handles (R-FEEDMAP, R-SHARED-COPY); a refused insert leaves without an event (R-INSERT-GUARD).",
+		Rules: []string{"R-EVT-1", "R-EVT-FEEDEVENT", "R-EVT-ROW", "R-EVT-CONV", "R-QUEUE", "R-ATOMIC-ENQ", "R-POST-ORDER", "R-FEEDMAP", "R-FEEDMAP-WRITERS", "R-SHARED-COPY", "R-INSERT-GUARD"},
+		Explanation: "The post function is never reachable from inside a transaction and each call of it is guarded by 'transaction error is nil' and 'event is non-nil' (R-EVT-1); mutation/deletion FeedEvents are built only by the one converter, whose fields are computed from exactly the corresponding event fields (R-EVT-FEEDEVENT, R-EVT-CONV); for every write unit each event field is the value bound into (or scanned back from) the row in the same transaction (R-EVT-ROW); queues are FIFO (R-QUEUE); commit and enqueue share a critical section and nothing that can block precedes the enqueue (R-ATOMIC-ENQ, R-POST-ORDER); registry entries are only ever extended by appending a new feed (R-FEEDMAP-WRITERS); events go to the writer's own collection's feeds, shared by all handles (R-FEEDMAP, R-SHARED-COPY); a refused insert leaves without an event (R-INSERT-GUARD).",
 		NotDecided:  "delivery itself (goroutine scheduling), xattr framing bytes, exactly-once at run time.",
 	}
 	propTable["C09"] = PropDef{
@@ -85,7 +85,7 @@ func registerProps() {
 	}
 	propTable["C14"] = PropDef{
 		Title: "Expiry: documents live until their expiry time and are tombstoned soon after",
-		Rules: []string{"R-EXP-SQL", "R-EXP", "R-EVT-ROW", "R-ROWCOMPLETE", "R-OPENMODE"},
+		Rules: []string{"R-EXP-SQL", "R-EXP", "R-EVT-ROW", "R-ROWCOMPLETE", "R-OPENMODE", "R-TIMER"},
 		Explanation: "Every expiry bound into a statement is absolute (passed through the offset-to-absolute function), preserved from the row, or 0 (R-EXP/a); every write unit that stores a possibly non-zero expiry leaves its closure with an event carrying that same value, or arms the timer itself with it (R-EXP/b, R-EVT-ROW/exp); the arm function re-arms iff cur == 0 or exp < cur, the callback clears the deadline and re-arms from the min-expiry query, the open function re-arms when the schema existed (R-EXP/c-e, R-OPENMODE); the expiry scan and min query predicates (R-EXP-SQL); tombstoning clears expiry (R-ROWCOMPLETE); the offset rule 0 < exp <= 30 days (R-EXP/h).",
 		NotDecided:  "all timing ('before T', 'within a few seconds'); timer goroutine scheduling.",
 	}
@@ -97,8 +97,8 @@ func registerProps() {
 	}
 	propTable["C16"] = PropDef{
 		Title: "Feeds terminate cleanly and independently",
-		Rules: []string{"R-DONE", "R-QUEUE", "R-SHUTDOWN", "R-FEEDMAP", "R-GUARDED"},
-		Explanation: "The feed loop closes its done channel by a deferred close guarded only by 'channel is non-nil', starts its terminator goroutine whenever a terminator is given, and calls the callback only for non-nil events; per-collection done channels are fresh and coalesced (R-DONE); close wakes the puller (R-QUEUE); shutdown walks the shared registry before closing the database (R-SHUTDOWN); stopping a collection's feeds touches only its own registry entry (R-FEEDMAP); the registry is accessed under the bucket mutex (R-GUARDED).",
+		Rules: []string{"R-DONE", "R-FEED-START", "R-LOOPVAR", "R-QUEUE", "R-SHUTDOWN", "R-FEEDMAP", "R-FEEDMAP-WRITERS", "R-GUARDED"},
+		Explanation: "The feed loop closes its done channel by a deferred close guarded only by 'channel is non-nil', starts its terminator goroutine whenever a terminator is given, and calls the callback only for non-nil events; per-collection done channels are fresh, passed to their feed, and coalesced by one goroutine that does not capture a loop variable (R-DONE, R-LOOPVAR); every started feed is registered or has its end marker (R-FEED-START); close wakes the puller (R-QUEUE); shutdown walks the shared registry before closing the database (R-SHUTDOWN); stopping a collection's feeds touches only its own registry entry (R-FEEDMAP); the registry is accessed under the bucket mutex (R-GUARDED).",
 		NotDecided:  "actual goroutine exit, starvation under load.",
 	}
 	propTable["C17"] = PropDef{
@@ -122,8 +122,8 @@ func registerProps() {
 	}
 	propTable["C20"] = PropDef{
 		Title: "Shutdown is safe: no panic, deadlock or leaked goroutine at any timing",
-		Rules: []string{"R-LOCK-PAIR", "R-LOCK-ORDER", "R-GUARDED", "R-TXN-READS", "R-SHUTDOWN", "R-CLOSED", "R-FEEDMAP", "R-BG-PANIC"},
-		Explanation: "No lock is left held on any path (R-LOCK-PAIR); the lock-order graph computed from must-hold locksets and transitive may-acquire summaries is acyclic (R-LOCK-ORDER) and nothing inside a transaction re-enters the bucket mutex (R-TXN-READS); maps and the closed flag are accessed under their mutex (R-GUARDED: a concurrent map access is a fatal error); shutdown order (R-SHUTDOWN); the DB handle is never reset and is used only behind the closed test (R-CLOSED); the feed registry is never replaced (R-FEEDMAP); no explicit panic is reachable from a goroutine root or timer callback except the converter's assertions (R-BG-PANIC).",
+		Rules: []string{"R-LOCK-PAIR", "R-LOCK-ORDER", "R-GUARDED", "R-TXN-READS", "R-SHUTDOWN", "R-CLOSED", "R-FEEDMAP", "R-BG-PANIC", "R-TIMER", "R-DONE", "R-LOOPVAR"},
+		Explanation: "No lock is left held on any path (R-LOCK-PAIR); the lock-order graph computed from must-hold locksets and transitive may-acquire summaries is acyclic (R-LOCK-ORDER) and nothing inside a transaction re-enters the bucket mutex (R-TXN-READS); maps and the closed flag are accessed under their mutex (R-GUARDED: a concurrent map access is a fatal error); shutdown order (R-SHUTDOWN); the DB handle is never reset and is used only behind the closed test (R-CLOSED); the feed registry is never replaced (R-FEEDMAP); no explicit panic is reachable from a goroutine root or timer callback except the converter's assertions (R-BG-PANIC); the done channel of a feed is closed once (R-DONE, R-LOOPVAR: a second close panics in a library goroutine); only one expiry timer is ever pending, so stop() cancels it (R-TIMER).",
 		NotDecided:  "absence of goroutine leaks and of run-time panics in general (nil dereferences, index errors); timing.",
 	}
 	// rules that are named above but not implemented yet are dropped from the lists, so that
